@@ -23,8 +23,8 @@ TYPES = {
     "floats(size_max=2, value_min=0)": (["1"], ["0.5 2"], ["1 2 3", "-1"]),
     "strings": (["a b", "None"], ["c", "d 'e f'"], []),
     "words": (["a 'b c'"], ["d", "e f"], []),
-    "choice": (["a *b c", "a b c"], ["a", "*c", "c", "None"], ["zz", "*a *b"]),
-    "choice(multi=True)": (["*a b *c", "a b c"], ["a", "*a *b", "a+b", "None"], ["zz"]),
+    "choice": (["a *b c", "a b c", "*a b c d", "lo *hi", "x *a"], ["a", "*c", "c", "None"], ["zz", "*a *b"]),
+    "choice(multi=True)": (["*a b *c", "a b c", "a *d e", "*lo hi mid"], ["a", "*a *b", "a+b", "None"], ["zz"]),
     None: (["x y", "1", "None"], ["p", "q r", "'s t'"], []),
 }
 
@@ -50,7 +50,7 @@ class MasterGen:
         mult = self.multiples and (self.nested_multiples or not in_multiple) and r.random() < 0.25
         opt = r.choice([None, None, True, False])
         if t and t.startswith("choice") and opt is False and "*" not in dv:
-            dv = "*a b c"
+            dv = "*" + dv
         node = {"k": "d", "name": name, "type": t, "default": dv, "multiple": mult, "optional": opt,
                 "dis": self.disabled and r.random() < 0.06, "expert": r.choice([None, None, None, 0, 1, 2]),
                 "help": r.choice([None, None, "some help"]), "further": [],
@@ -141,10 +141,23 @@ class SourceGen:
         self.valid_only = valid_only
         self.unknown = unknown
         self.disabled = disabled
+        self.variables = variables
 
     def value_for(self, node):
         r = self.rng
         d, ok, bad = TYPES[node["type"]]
+        if node["type"] and node["type"].startswith("choice") and r.random() < 0.85:
+            alts = [w.lstrip("*") for w in node["default"].split()]
+            k = r.random()
+            if k < 0.5:
+                return r.choice(alts)
+            if k < 0.7:
+                return "*" + r.choice(alts)
+            if k < 0.8 and node["type"] != "choice":
+                return "+".join(r.sample(alts, min(2, len(alts))))
+            if k < 0.9:
+                return " ".join(("*" if r.random() < 0.4 else "") + a for a in alts)
+            return "None"
         if r.random() < (0.5 if node.get("deprecated") else 0.1):
             return node["default"]          # left at the master's default
         if bad and not self.valid_only and r.random() < 0.08:
@@ -162,6 +175,16 @@ class SourceGen:
             p, n = r.choice(defs)
             bang = "!" if self.disabled and r.random() < 0.07 else ""
             v = self.value_for(n)
+            if self.variables and r.random() < 0.35:
+                kv = r.random()
+                if kv < 0.6:
+                    var = "v%d" % r.randint(1, 3)
+                    lines.append("%s = %s\n" % (var, v))       # a helper definition the master does not declare
+                    v = r.choice(["$" + var, "$(" + var + ")", "$(." + var + ")"])
+                elif kv < 0.8:
+                    v = r.choice(["$PHILENV_A", "$(PHILENV_B)"])
+                else:
+                    v = r.choice(["$undefined_x", "pre$v1", "'$v1'", '"$v1 z"'])
             comps = p.split(".")
             k = r.random()
             if len(comps) > 1 and k < 0.5:
